@@ -185,6 +185,49 @@ CHECKS["C12"] = dict(
     technique="Coq refinement proof (representation invariant, abstraction to a cache-free spec) + exhaustive/random differential correspondence",
     design="5/C12")
 
+CHECKS["C07"] = dict(
+    text="Coq theorems (13) over a state-machine model of TunnelEndpoint (per-prefix switch, send routing, bounded deque, attach/detach, "
+         "Community/TunnelCommunity opt-in) and of the circuit data the routing reads, for arbitrary start states and arbitrary "
+         "interleavings: anon_never_raw / asked_never_raw / asked_overlay_packets_never_raw (a packet whose prefix is switched on, or "
+         "whose overlay asked for anonymity, is never handed to the wrapped socket, now or later), anon_send_fate, tunnel_send_wellformed "
+         "(READY, configured length, EXIT_IPV8 exit, DATA type, first hop, origin 0.0.0.0:0), queue_bounded, eviction_only_when_full, "
+         "plain_unaffected, delivery_filter, documented_constants (constants re-translated every run). Tied to the real TunnelEndpoint / "
+         "TunnelCommunity / Circuit / Community objects by exhaustive enumeration of all operation sequences to depth 6 (quick) / 7 "
+         "(thorough) over 8 operations (plus three further alphabets), digest-compared with the model evaluated inside Coq, and by "
+         "generated histories incl. queue overflow and real overlays sending through their own code; independent oracle on every run.",
+    note="Trusted: Coq kernel; tr_tunnel_ep (literal constants); hand model M07_tunnel_ep; harness (spies on inner send / send_data / "
+         "create_circuit, alpha abstraction, 61-bit digest mirror). Assumes the overlay's endpoint is a TunnelEndpoint (Community.__init__ "
+         "only warns otherwise), single-threaded use. Cell encryption below send_data belongs to C04/C05. No defect found in scope.",
+    technique="Coq proof (induction/invariants over operation lists) + translated constants + exhaustive-to-depth-7 differential correspondence",
+    design="5/C07")
+CHECKS["C13"] = dict(
+    text="Coq model of the introduction protocol over a NAT network (17 theorems): for every node state an introducing response is "
+         "accompanied in the same step by a puncture-request naming the requester's LAN/WAN pair; LAN/WAN selection, puncture target and "
+         "WAN learning are as specified; for every well-formed network and each cone discipline a punctured pair passes and mappings are "
+         "stable; for the complete enumerated configuration space (4x4 NAT types, same/different site, candidate learned by request or "
+         "response, old/new style, 1..5 candidates at every position, alias/warm/rebound variants - bound stated in the theorem, decided "
+         "by vm_compute) the requester's next contact reaches the introduced peer and both end up verified; same-NAT peers connect over "
+         "LAN addresses. The LAN subnet table is translated from the source. Every run replays the configurations on real Community nodes "
+         "on a NAT-enforcing simulator and compares each history with the model inside Coq; an independent oracle also judges "
+         "DiscoveryCommunity nodes.",
+    note="Trusted: the NAT simulator (endpoint-independent mapping, textbook cone filtering, no hairpin, FIFO) and its Gallina twin "
+         "(differential-tested); harness (LAN-provider patch, scripted random.choice). Assumes public introducer, IPv4, authentic "
+         "senders, fewer than max_peers; symmetric NATs, loss, timeouts outside. The scenario theorem is evaluation over a fixed address "
+         "layout, not symbolic in addresses. Model follows fixes c074f39, 7160eeb, c95dbae.",
+    technique="Gallina model + general lemmas + finite-space decision by vm_compute (bound in the statement) + differential correspondence",
+    design="5/C13")
+CHECKS["C14"] = dict(
+    text="Coq proof (18 theorems), for every identifier width and bucket capacity >= 1 and every history of add / remove_bad_nodes / "
+         "status changes: the routing table stays a valid Kademlia tree (prefix-free complete buckets, ownership, capacity, uniqueness, "
+         "splits only on the own path, add never fails), closest_nodes returns exactly the k nearest live nodes nearest-first "
+         "(specification proved unique), trie set/del/suffixes behave as a pruned finite map, refresh ids lie in their bucket. Checked "
+         "every run against the real Trie / Bucket / RoutingTable on exhaustive small-key trie sequences, an exhaustive 4-bit addition "
+         "sweep and random 160-bit histories with clustered ids, with an independent brute-force oracle on the implementation's objects.",
+    note="Trusted: Coq kernel; hand model M14_routing (tied by correspondence only); harness Node subclass with settable id/rtt/failed; "
+         "integer RTTs; BAD <=> failed >= 2. Model follows fixes d1866e8, 3525098.",
+    technique="Coq invariant proof over operation lists + exhaustive small-scope and random differential testing + brute-force oracle",
+    design="5/C14")
+
 NOT_APPLICABLE = {}
 
 
